@@ -2,6 +2,8 @@
 """apply each seeded change to /repo, run the property's check, undo; print a table.
 usage: seedtest.py <dir-with-Cxx/patchK.diff> [Cxx ...]"""
 import subprocess, sys, os, glob, json, re
+REPO = os.environ.get('VERIF_REPO', REPO)
+VERIF = os.path.dirname(os.path.dirname(os.path.abspath(__file__)))
 root = sys.argv[1]
 only = set(sys.argv[2:])
 rows = []
@@ -9,18 +11,18 @@ for d in sorted(glob.glob(os.path.join(root, 'C*'))):
     pid = os.path.basename(d)
     if only and pid not in only: continue
     for pf in sorted(glob.glob(os.path.join(d, 'patch*.diff'))):
-        assert subprocess.run(['git','-C','/repo','status','--porcelain'],capture_output=True,text=True).stdout.strip()=='' , 'repo dirty'
-        r = subprocess.run(['git','-C','/repo','apply',pf],capture_output=True,text=True)
+        assert subprocess.run(['git','-C',REPO,'status','--porcelain'],capture_output=True,text=True).stdout.strip()=='' , 'repo dirty'
+        r = subprocess.run(['git','-C',REPO,'apply',pf],capture_output=True,text=True)
         if r.returncode != 0:
             rows.append((pid, os.path.basename(pf), 'APPLY-FAILED', r.stderr.strip()[:100])); continue
         try:
-            c = subprocess.run(['/verif/check', pid], capture_output=True, text=True, cwd='/verif', timeout=3600)
+            c = subprocess.run([os.path.join(VERIF, 'check'), pid], capture_output=True, text=True, cwd=VERIF, timeout=3600)
             out = (c.stdout + c.stderr).strip().split('\n')
             last = out[-1] if out else ''
             fi = [l for l in out if 'failing input' in l][:1]
             rows.append((pid, os.path.basename(pf), 'exit=%d' % c.returncode, last[:160] + (' || ' + fi[0][:200] if fi else '')))
         finally:
-            subprocess.run(['git','-C','/repo','checkout','--','.'],check=True)
-            subprocess.run(['git','-C','/repo','clean','-fdq'],check=True)
-            subprocess.run(['git','-C','/verif','checkout','--','evidence'],check=False)  # evidence is only committed from runs on the unchanged tree
+            subprocess.run(['git','-C',REPO,'checkout','--','.'],check=True)
+            subprocess.run(['git','-C',REPO,'clean','-fdq'],check=True)
+            subprocess.run(['git','-C',VERIF,'checkout','--','evidence'],check=False)  # evidence is only committed from runs on the unchanged tree
 for r in rows: print(' | '.join(r))
